@@ -35,6 +35,9 @@ const (
 	FaultError   = "error"
 	FaultTimeout = "timeout"
 	FaultTorn    = "torn"
+	// FaultSentinel: the storage answers with one reused error value of type *oidc.Error (storages commonly keep
+	// such errors in package-level variables); the library must not let one request's data travel in it to the next
+	FaultSentinel = "sentinel"
 )
 
 type ctxKeyReq struct{}
@@ -310,6 +313,9 @@ type Store struct {
 	OnCall func(ctx context.Context, method string) string
 
 	idSeq int
+
+	// Sentinel is the reused *oidc.Error of FaultSentinel (one value per store, handed out again and again).
+	Sentinel *oidc.Error
 }
 
 func NewStore() *Store {
@@ -317,6 +323,7 @@ func NewStore() *Store {
 		Clients: map[string]*Client{}, Users: map[string]*User{}, AuthReqs: map[string]*AuthReq{}, Codes: map[string]string{},
 		Tokens: map[string]*Token{}, Refreshes: map[string]*Refresh{}, Devices: map[string]*Device{}, DeletedAuthReqs: map[string]*AuthReq{},
 		AccessLifetime: 5 * time.Minute, RefreshLifetime: 5 * time.Hour, reqCalls: map[int]int{}, FaultsFired: map[string]int{},
+		Sentinel: oidc.ErrServerError().WithDescription("simstore: storage unavailable"),
 	}
 }
 
@@ -373,6 +380,8 @@ func (s *Store) faultErr(ctx context.Context, fault string) error {
 		case <-t.C:
 		}
 		return fmt.Errorf("simstore: %w", context.DeadlineExceeded)
+	case FaultSentinel:
+		return s.Sentinel
 	default:
 		return ErrInjected
 	}
